@@ -19,6 +19,8 @@ import M4riProofs.GenTieTab
 import M4riProofs.GenTieDuff
 import M4riProofs.GenTieStrassen
 import M4riProofs.GenTieStrassen2
+import M4riProofs.GenTieClose3
+import M4riProofs.GenTieMul
 namespace M4ri.Props.C01
 open M4ri M4ri.BMat
 
@@ -141,5 +143,24 @@ theorem routes_agree (fuel cutoff k auto ntables thin thin' : Nat) (junk : Nat â
 #check @M4ri.GenTieStrassen2.strassenAddmulEven_step_add
 #check @M4ri.GenTieStrassen2.strassenSqrEven_step_mul
 #check @M4ri.GenTieStrassen2.strassenAddsqrEven_step_add
+
+
+/-! ### THE RECURSION CLOSED on the C text (GenTieClose3.lean): `cStrassen hd n` = the four generated Strassen routines with their recursive-call
+    parameters bound to EACH OTHER `n` levels deep; by induction they compute A*B, C+A*B, A*A, C+A*A for EVERY depth, cut-off, flags -/
+#check @M4ri.GenTieClose3.cMul_correct
+#check @M4ri.GenTieClose3.cAddmul_correct
+#check @M4ri.GenTieClose3.cSqr_correct
+#check @M4ri.GenTieClose3.cAddsqr_correct
+#check @M4ri.GenTieClose3.cStrassen_raw
+
+
+/-! ### the PUBLIC entry points on the C text (GenTieMul.lean): the generated `mzd_mul` / `mzd_addmul` (cut-off normalisation with the default numeral =
+    4096, `A == B` dispatch to the squaring route, early return of the accumulating product) over the closed recursion compute the product -/
+#check @M4ri.GenTieMul.mzdMul_correct
+#check @M4ri.GenTieMul.mzdMul_same_correct
+#check @M4ri.GenTieMul.mzdAddmul_correct
+#check @M4ri.GenTieMul.mzdAddmul_same_correct
+#check @M4ri.GenTieMul.strassenCutoff_eq
+#check @M4ri.GenTieMul.mzdAddmul_early
 
 end M4ri.Props.C01
